@@ -151,3 +151,15 @@ _p(
     components=[comp.validators(["optim"])],
     explanation="The real module is constructed symbolically (fan_in, fan_out, kernel size symbolic), its real forward gives out_scale (ratio to the torch op), its weight's tag comes from the real __init__, the real lr_scale_func_adam gives the learning-rate factor for that tag / shape / depth; z3 discharges out_scale * lr_factor * fan == depth^-1/2 for Linear, LinearReadout and Conv1d, default constraint and None, with and without depth: a consistent-looking change of any one of the three parts breaks the lemma.",
 )
+
+_p(
+    "C04",
+    level="other",
+    technique="contract-based deductive verification of the closed-form clauses (z3); the elementwise 7% bands only by a bounded run-time contract (Gauss-Hermite quadrature), labelled bounded; Monte-Carlo bands not covered",
+    trusted_base=SMT + ["bounded/c04_quadrature.py (bounded stand-in, not proof)"],
+    assumptions=[A1, A2, A7, "d CE_sum / d logits = softmax - onehot (assumed torch fact) for the uniform-logits clause"],
+    components=[comp.script("c04-quadrature", "BOUNDED stand-in", ["{ROOT}/bounded/c04_quadrature.py"])],
+    bounded=["gelu (exact and tanh), silu, silu_glu: output std and input-gradient RMS within 7% of 1 for mult in [1/16,16] -- run-time contract on the real functions by 120-node Gauss-Hermite quadrature on 81 (quick) / 1025 (thorough) multipliers incl. the end points; NOT counted as proved"],
+    uncovered=["Monte-Carlo bands for softmax, attention, cross-entropy with random logits, layer_norm / rms_norm: statements about expectations of transcendental functions of high-dimensional Gaussians; no contract on a function within reach expresses them (a sampling check would be a different technique)"],
+    explanation="PROVED (z3, all mult > 0, all widths): logarithmic_interpolation(alpha, lo, hi) lies between lo and hi for alpha in [0,1] and equals them at the end points; every empirical scale of gelu / silu / silu_glu / softmax (output and input-gradient) lies between its flat and its sharp limit; the cross-entropy logit-gradient scale is V/sqrt(V-1) and gives RMS exactly 1 for uniform logits for every V >= 2; norm gain/bias gradient scales are one-term-per-row (shared with C03). BOUNDED: the 7% bands of the elementwise ops (quadrature). NOT COVERED: the Monte-Carlo bands.",
+)
